@@ -4,6 +4,7 @@ namespace PlzVerif.Generated.C09
 open PlzVerif.PathHash
 def schema : Schema := {
     marker := [2],
+    linkCond := (.and (.or .relNeDest (.not .absDest)) (.not .absPath)),
     topFile := [.content],
     topLinkIn := [.marker, .target],
     topLinkOut := [.marker, .content],
